@@ -282,7 +282,7 @@ func ruleE2(p *Prog, r *Report) {
 				}
 			}
 			// (c) error first: a found/ok flag returned next to the error is consulted only where the error is known to be nil
-			if tup, ok := c.Type().(*types.Tuple); ok && tup.Len() >= 2 && !isDiagnosticFile(p.Fset.Position(fn.Pos()).Filename) && !errFirstExempt[p.Name(fn)] {
+			if tup, ok := c.Type().(*types.Tuple); ok && tup.Len() >= 2 && !isDiagnosticFile(p.Fset.Position(fn.Pos()).Filename) && !p.errFirstExemptFn(fn) {
 				for _, ref := range *c.Referrers() {
 					ex, ok := ref.(*ssa.Extract)
 					if !ok || ex.Index == tup.Len()-1 {
@@ -634,4 +634,29 @@ func ruleE4(p *Prog, r *Report) {
 		r.Decide(good, R, cons, p.Pos(f.Pos()), "SlabIDUndefined is refused with a SlabIDError before anything else", why+": a request with an undefined identifier is served instead of being refused")
 	}
 	r.Floor(R, "entry points that must refuse an undefined identifier", 4, n)
+}
+
+// errFirstExemptFn: the function is in the exemption table, or is a private helper called only from exempt functions.
+func (p *Prog) errFirstExemptFn(fn *ssa.Function) bool {
+	t := TopLevel(fn)
+	if errFirstExempt[p.Name(t)] {
+		return true
+	}
+	if t.Object() == nil || t.Object().Exported() {
+		return false
+	}
+	cs := p.CallersOf(t)
+	if len(cs) == 0 {
+		return false
+	}
+	for _, c := range cs {
+		ct := TopLevel(c.Caller)
+		if p.IsTestFile(ct.Pos()) {
+			continue
+		}
+		if !errFirstExempt[p.Name(ct)] {
+			return false
+		}
+	}
+	return true
 }
